@@ -7,13 +7,19 @@ package main
 //     function is then right in every context);
 //   - calls of repository functions: through the returned values (any return)
 //     or through any argument (over-approximation of "the callee uses it");
-//   - loads of fields of request-local structs / local variables: through any
-//     value stored into that field / variable in serving-phase code.
+//   - struct values are followed per access path: a read of x.a.b from a struct
+//     held in a local variable is matched with the stores to x, x.a and x.a.b
+//     only, and the path is carried through phis, calls and returns;
+//   - loads of fields of structs that are not local variables: through any
+//     value stored into that field in serving-phase code (field-based join).
 // The answer over-approximates dependence, so a "does not depend" verdict is
 // definite: alarms of must-depend rules are sound, silence is not a proof.
+// Not modelled: writes to a local struct through a pointer handed to a callee.
 
 import (
 	"go/token"
+	"go/types"
+	"strconv"
 	"strings"
 
 	"golang.org/x/tools/go/ssa"
@@ -21,22 +27,27 @@ import (
 
 var depExhausted int
 
+type dkey struct {
+	v    ssa.Value
+	path string
+}
+
 type depQuery struct {
-	p      *Program
-	target func(v ssa.Value) bool // leaf predicate: v itself satisfies the dependence
-	memo   map[ssa.Value]int      // 0 unknown, 1 yes, 2 no, 3 in progress
-	budget int
+	p        *Program
+	target   func(v ssa.Value) bool // leaf predicate: v itself satisfies the dependence
+	memo     map[dkey]int           // 0 unknown, 1 yes, 2 no, 3 in progress
+	budget   int
 	noParams bool
-	np     *depQuery
-	cuts   int
-	stack  []ssa.Value
-	why    map[ssa.Value]ssa.Value
+	np       *depQuery
+	cuts     int
+	stack    []ssa.Value
+	why      map[ssa.Value]ssa.Value
 	// exploreAll: visit the whole backward slice (used with a target that records and answers false)
 	exploreAll bool
 }
 
 func newDepQuery(p *Program, target func(v ssa.Value) bool) *depQuery {
-	return &depQuery{p: p, target: target, memo: map[ssa.Value]int{}, budget: 2000000}
+	return &depQuery{p: p, target: target, memo: map[dkey]int{}, budget: 2000000}
 }
 
 // onField: target is a load of the struct field "pkg.Type.Field" (pointee loads "T.F*" included).
@@ -57,16 +68,31 @@ func onParam(prm *ssa.Parameter) func(v ssa.Value) bool {
 	return func(v ssa.Value) bool { return v == ssa.Value(prm) }
 }
 
-func (q *depQuery) depends(v ssa.Value, depth int) bool {
+func pathKey(path []int) string {
+	if len(path) == 0 {
+		return ""
+	}
+	var sb strings.Builder
+	for _, f := range path {
+		sb.WriteString(strconv.Itoa(f))
+		sb.WriteByte('.')
+	}
+	return sb.String()
+}
+
+func (q *depQuery) depends(v ssa.Value, depth int) bool { return q.dep(v, nil, depth) }
+
+func (q *depQuery) dep(v ssa.Value, path []int, depth int) bool {
 	if v == nil {
 		return false
 	}
 	q.budget--
-	if q.budget < 0 || depth > 40 {
+	if q.budget < 0 || depth > 150 {
 		depExhausted++
 		return true // undecided: over-approximate
 	}
-	switch q.memo[v] {
+	k := dkey{v, pathKey(path)}
+	switch q.memo[k] {
 	case 1:
 		q.note(v)
 		return true
@@ -76,18 +102,18 @@ func (q *depQuery) depends(v ssa.Value, depth int) bool {
 		q.cuts++
 		return false
 	}
-	q.memo[v] = 3
+	q.memo[k] = 3
 	before := q.cuts
 	q.stack = append(q.stack, v)
-	r := q.compute(v, depth)
+	r := q.compute(v, path, depth)
 	q.stack = q.stack[:len(q.stack)-1]
 	if r {
 		q.note(v)
-		q.memo[v] = 1
+		q.memo[k] = 1
 	} else if q.cuts == before {
-		q.memo[v] = 2
+		q.memo[k] = 2
 	} else {
-		q.memo[v] = 0 // a cycle was cut below: the negative verdict is not final
+		q.memo[k] = 0 // a cycle was cut below: the negative verdict is not final
 	}
 	return r
 }
@@ -121,7 +147,6 @@ func (q *depQuery) explain(v ssa.Value, max int) []string {
 		if q.target(cur) {
 			break
 		}
-		var next ssa.Value
 		if w, ok := q.why[cur]; ok {
 			cur = w
 			continue
@@ -132,26 +157,138 @@ func (q *depQuery) explain(v ssa.Value, max int) []string {
 				continue
 			}
 		}
-		var ops []ssa.Value
-		if in, ok := cur.(ssa.Instruction); ok {
-			for _, op := range in.Operands(nil) {
-				if *op != nil {
-					ops = append(ops, *op)
-				}
-			}
-		}
-		for _, o := range ops {
-			if q.memo[o] == 1 || (q.np != nil && q.np.memo[o] == 1) {
-				next = o
-				break
-			}
-		}
-		cur = next
+		cur = nil
 	}
 	return out
 }
 
-func (q *depQuery) compute(v ssa.Value, depth int) bool {
+// resolveAddr strips the FieldAddr chain of an address: base pointer and field path.
+func resolveAddr(addr ssa.Value) (ssa.Value, []int) {
+	var rev []int
+	for {
+		fa, ok := addr.(*ssa.FieldAddr)
+		if !ok {
+			break
+		}
+		rev = append(rev, fa.Field)
+		addr = fa.X
+	}
+	path := make([]int, len(rev))
+	for i, f := range rev {
+		path[len(rev)-1-i] = f
+	}
+	return addr, path
+}
+
+func isPrefix(a, b []int) bool {
+	if len(a) > len(b) {
+		return false
+	}
+	for i := range a {
+		if a[i] != b[i] {
+			return false
+		}
+	}
+	return true
+}
+
+type addrPath struct {
+	addr ssa.Value
+	path []int
+}
+
+// derivedAddrs lists the addresses derived from a local variable by field selection, with their paths.
+func derivedAddrs(al *ssa.Alloc) []addrPath {
+	out := []addrPath{{al, nil}}
+	for i := 0; i < len(out); i++ {
+		cur := out[i]
+		refs := cur.addr.Referrers()
+		if refs == nil {
+			continue
+		}
+		for _, ref := range *refs {
+			if fa, ok := ref.(*ssa.FieldAddr); ok && fa.X == cur.addr {
+				np := append(append([]int{}, cur.path...), fa.Field)
+				out = append(out, addrPath{fa, np})
+			}
+		}
+	}
+	return out
+}
+
+// allocRead: a read of the sub-object `full` of the local variable al.
+func (q *depQuery) allocRead(al *ssa.Alloc, full []int, depth int) bool {
+	for _, d := range derivedAddrs(al) {
+		refs := d.addr.Referrers()
+		if refs == nil {
+			continue
+		}
+		for _, ref := range *refs {
+			st, ok := ref.(*ssa.Store)
+			if !ok || st.Addr != d.addr {
+				continue
+			}
+			switch {
+			case isPrefix(d.path, full):
+				if q.dep(st.Val, full[len(d.path):], depth+1) {
+					return true
+				}
+			case isPrefix(full, d.path):
+				if q.dep(st.Val, nil, depth+1) {
+					return true
+				}
+			}
+		}
+	}
+	return false
+}
+
+// fieldAlong returns the id ("pkg.T.f") of the innermost field selected by path from type t.
+func fieldAlong(t types.Type, path []int) (string, bool) {
+	id := ""
+	for _, f := range path {
+		if p, ok := t.Underlying().(*types.Pointer); ok {
+			t = p.Elem()
+		}
+		st, ok := t.Underlying().(*types.Struct)
+		if !ok || f >= st.NumFields() {
+			return "", false
+		}
+		id = structFieldOf(t, f)
+		t = st.Field(f).Type()
+	}
+	return id, id != ""
+}
+
+func (q *depQuery) servingStores(fld string, path []int, depth int) bool {
+	for _, st := range fieldStores(q.p, fld) {
+		if _, serving := q.p.reachH[st.Parent()]; !serving {
+			continue // start-up code cannot see a request's configuration
+		}
+		if q.dep(st.Val, path, depth+1) {
+			return true
+		}
+	}
+	return false
+}
+
+func (q *depQuery) calleeResults(site ssa.CallInstruction, idx int, path []int, depth int) bool {
+	for _, callee := range q.p.calleesAt(site) {
+		if !q.p.isRepoFunc(callee) || len(callee.Blocks) == 0 {
+			continue
+		}
+		for _, b := range callee.Blocks {
+			if ret, ok := b.Instrs[len(b.Instrs)-1].(*ssa.Return); ok && idx < len(ret.Results) {
+				if q.dependsInCallee(ret.Results[idx], path, depth+1) {
+					return true
+				}
+			}
+		}
+	}
+	return false
+}
+
+func (q *depQuery) compute(v ssa.Value, path []int, depth int) bool {
 	if q.target(v) {
 		return true
 	}
@@ -174,6 +311,7 @@ func (q *depQuery) compute(v ssa.Value, depth int) bool {
 			return false
 		}
 		n := 0
+		res := true
 		for _, s := range sites {
 			if !q.p.isRepoFunc(s.Parent()) {
 				return false
@@ -188,11 +326,14 @@ func (q *depQuery) compute(v ssa.Value, depth int) bool {
 			}
 			n++
 			// every context must provide the dependence (the verdict for a value does not depend on who asks: shared memo)
-			if !q.depends(args[idx], depth+1) {
-				return false
+			if !q.dep(args[idx], path, depth+1) {
+				if !q.exploreAll {
+					return false
+				}
+				res = false
 			}
 		}
-		return n > 0
+		return res && n > 0
 	case *ssa.FreeVar:
 		fn := x.Parent()
 		for i, fv := range fn.FreeVars {
@@ -202,129 +343,92 @@ func (q *depQuery) compute(v ssa.Value, depth int) bool {
 			for _, b := range fn.Parent().Blocks {
 				for _, in := range b.Instrs {
 					if mc, ok := in.(*ssa.MakeClosure); ok && mc.Fn == fn && i < len(mc.Bindings) {
-						return q.depends(mc.Bindings[i], depth+1)
+						return q.dep(mc.Bindings[i], path, depth+1)
 					}
 				}
 			}
 		}
 		return false
 	case *ssa.Alloc:
-		// local variable: any value stored into it
-		if x.Referrers() != nil {
-			for _, ref := range *x.Referrers() {
-				if st, ok := ref.(*ssa.Store); ok && st.Addr == ssa.Value(x) {
-					if q.depends(st.Val, depth+1) {
-						return true
-					}
-				}
-				// field stores into a local struct
-				if fa, ok := ref.(*ssa.FieldAddr); ok && fa.Referrers() != nil {
-					for _, r2 := range *fa.Referrers() {
-						if st, ok := r2.(*ssa.Store); ok && st.Addr == ssa.Value(fa) && q.depends(st.Val, depth+1) {
-							return true
-						}
-					}
-				}
-			}
-		}
-		return false
+		// the pointer itself: anything stored into the variable
+		return q.allocRead(x, nil, depth)
 	case *ssa.UnOp:
-		if x.Op == token.MUL {
-			// load: field of a request-local struct -> field-based stores; otherwise through the address
-			if fa, ok := x.X.(*ssa.FieldAddr); ok {
-				fld := structFieldOf(fa.X.Type(), fa.Field)
-				// field of a struct held in a local variable: whole-struct stores and stores to this very field
-				if al, ok := fa.X.(*ssa.Alloc); ok && al.Referrers() != nil {
-					for _, ref := range *al.Referrers() {
-						if st, ok := ref.(*ssa.Store); ok && st.Addr == ssa.Value(al) && q.depends(st.Val, depth+1) {
-							return true
-						}
-						if fa2, ok := ref.(*ssa.FieldAddr); ok && fa2.Field == fa.Field && fa2.Referrers() != nil {
-							for _, r2 := range *fa2.Referrers() {
-								if st, ok := r2.(*ssa.Store); ok && st.Addr == ssa.Value(fa2) && q.depends(st.Val, depth+1) {
-									return true
-								}
-							}
-						}
-					}
-					return false
-				}
-				if isRepoStruct(fa.X.Type()) && !strings.HasPrefix(fld, "app.ResponseConfig.") {
-					for _, st := range fieldStores(q.p, fld) {
-						if _, serving := q.p.reachH[st.Parent()]; !serving {
-							continue // start-up code cannot see a request's configuration
-						}
-						if q.depends(st.Val, depth+1) {
-							return true
-						}
-					}
-				}
-				return q.depends(fa.X, depth+1)
-			}
-			return q.depends(x.X, depth+1)
+		if x.Op != token.MUL {
+			return q.dep(x.X, nil, depth+1)
 		}
-		return q.depends(x.X, depth+1)
+		base, ap := resolveAddr(x.X)
+		full := append(append([]int{}, ap...), path...)
+		if al, ok := base.(*ssa.Alloc); ok {
+			return q.allocRead(al, full, depth)
+		}
+		if len(ap) == 0 {
+			// load through a pointer that is not a field address (element of a slice, *p, global)
+			return q.dep(x.X, nil, depth+1)
+		}
+		fa := x.X.(*ssa.FieldAddr)
+		fld := structFieldOf(fa.X.Type(), fa.Field)
+		if len(path) > 0 {
+			// a sub-field of the loaded struct: stores to that very field anywhere
+			if inner, ok := fieldAlong(x.Type(), path); ok && !strings.HasPrefix(inner, "app.ResponseConfig.") {
+				if q.servingStores(inner, nil, depth) {
+					return true
+				}
+			}
+		}
+		if isRepoStruct(fa.X.Type()) && !strings.HasPrefix(fld, "app.ResponseConfig.") {
+			if q.servingStores(fld, path, depth) {
+				return true
+			}
+		}
+		return q.dep(fa.X, nil, depth+1)
+	case *ssa.Field:
+		return q.dep(x.X, append([]int{x.Field}, path...), depth+1)
 	case *ssa.BinOp:
-		return q.depends(x.X, depth+1) || q.depends(x.Y, depth+1)
+		return q.dep(x.X, nil, depth+1) || q.dep(x.Y, nil, depth+1)
 	case *ssa.Phi:
 		for _, e := range x.Edges {
-			if q.depends(e, depth+1) {
+			if q.dep(e, path, depth+1) {
 				return true
 			}
 		}
 		return false
+	case *ssa.MakeInterface:
+		return q.dep(x.X, path, depth+1)
+	case *ssa.ChangeInterface:
+		return q.dep(x.X, path, depth+1)
+	case *ssa.ChangeType:
+		return q.dep(x.X, path, depth+1)
+	case *ssa.TypeAssert:
+		return q.dep(x.X, path, depth+1)
 	case *ssa.Call:
 		cc := x.Common()
 		for _, a := range cc.Args {
-			if q.depends(a, depth+1) {
+			if q.dep(a, nil, depth+1) {
 				return true
 			}
 		}
-		if cc.IsInvoke() && q.depends(cc.Value, depth+1) {
+		if cc.IsInvoke() && q.dep(cc.Value, nil, depth+1) {
 			return true
 		}
-		for _, callee := range q.p.calleesAt(x) {
-			if !q.p.isRepoFunc(callee) || len(callee.Blocks) == 0 {
-				continue
-			}
-			for _, b := range callee.Blocks {
-				if ret, ok := b.Instrs[len(b.Instrs)-1].(*ssa.Return); ok {
-					for _, res := range ret.Results {
-						if q.dependsInCallee(res, depth+1) {
-							return true
-						}
-					}
-				}
-			}
-		}
-		return false
+		return q.calleeResults(x, 0, path, depth)
 	case *ssa.Extract:
 		if c, ok := x.Tuple.(*ssa.Call); ok {
 			cc := c.Common()
 			for _, a := range cc.Args {
-				if q.depends(a, depth+1) {
+				if q.dep(a, nil, depth+1) {
 					return true
 				}
 			}
-			for _, callee := range q.p.calleesAt(c) {
-				if !q.p.isRepoFunc(callee) || len(callee.Blocks) == 0 {
-					continue
-				}
-				for _, b := range callee.Blocks {
-					if ret, ok := b.Instrs[len(b.Instrs)-1].(*ssa.Return); ok && x.Index < len(ret.Results) {
-						if q.dependsInCallee(ret.Results[x.Index], depth+1) {
-							return true
-						}
-					}
-				}
+			if cc.IsInvoke() && q.dep(cc.Value, nil, depth+1) {
+				return true
 			}
-			return false
+			return q.calleeResults(c, x.Index, path, depth)
 		}
-		return q.depends(x.Tuple, depth+1)
+		return q.dep(x.Tuple, nil, depth+1)
 	default:
 		if in, ok := v.(ssa.Instruction); ok {
 			for _, op := range in.Operands(nil) {
-				if *op != nil && q.depends(*op, depth+1) {
+				if *op != nil && q.dep(*op, nil, depth+1) {
 					return true
 				}
 			}
@@ -335,15 +439,15 @@ func (q *depQuery) compute(v ssa.Value, depth int) bool {
 
 // dependsInCallee: inside a callee, parameters are not followed back to other
 // callers (the arguments of this call were examined already).
-func (q *depQuery) dependsInCallee(v ssa.Value, depth int) bool {
+func (q *depQuery) dependsInCallee(v ssa.Value, path []int, depth int) bool {
 	if q.noParams {
-		return q.depends(v, depth)
+		return q.dep(v, path, depth)
 	}
 	if q.np == nil {
-		q.np = &depQuery{p: q.p, target: q.target, memo: map[ssa.Value]int{}, budget: q.budget, noParams: true, exploreAll: q.exploreAll}
+		q.np = &depQuery{p: q.p, target: q.target, memo: map[dkey]int{}, budget: q.budget, noParams: true, exploreAll: q.exploreAll}
 	}
 	q.np.budget = q.budget
-	r := q.np.depends(v, depth)
+	r := q.np.dep(v, path, depth)
 	if r {
 		q.note(v)
 	}
